@@ -128,7 +128,12 @@ func checkPipeReply(r *evid.Run, pc *pipeCase, rq wproto.Req, rp wproto.Rep, can
 	if rp.Unsettled {
 		// goroutines of the call were still moving 20 s after it returned: the machine is overloaded or they
 		// spin; either way this run cannot say that they end
-		r.Broken("%s: the goroutines of the call had neither ended nor come to rest 20 s after it returned", desc)
+		// ... no verdict for this call; if it happens again and again the whole run says nothing (machinery failure)
+		r.Count("calls_unsettled_after_20s", 1)
+		r.Note(fmt.Sprintf("%s: the goroutines of the call had neither ended nor come to rest 20 s after it returned: no verdict for this call", desc))
+		if r.Get("calls_unsettled_after_20s") > 10 {
+			r.Broken("%s: more than 10 calls whose goroutines had neither ended nor come to rest 20 s after they returned", desc)
+		}
 	}
 	if rp.ReadsAfter > maxReadsAfterReturn {
 		r.Mismatch(route+":reader-still-read-after-return", fmt.Sprintf("%s: returned %q, and afterwards the input reader was read %d more times: a goroutine of the call went on consuming the input", desc, rp.Err, rp.ReadsAfter), rec)
